@@ -212,12 +212,9 @@ def run(F, R, tier):
             t = H.render(cl[0]["body"]) if cl else ""
             ps = [p.get("name") for p in cl[0].get("params", [])] if cl else []
             R.ob("vm-operator-table", "%s applies %s to (left, right)" % (op, want), len(cl) == 1 and t == want and ps == ["a", "b"], "%s |%s|" % (t, ps), "src/vm/interpreter.rs:%s" % a["line"])
-        for op, sym in (("Equal", "=="), ("NotEqual", "!=")):
-            a = arms.get(op)
-            if R.anchor("VM arm " + op, a):
-                t = H.render(a["body"])
-                R.ob("vm-operator-table", "%s: b = pop, a = pop, push a %s b" % (op, sym),
-                     t.startswith("let b = self.pop(line)?; let a = self.pop(line)?;") and ("(a.as_ref() %s b.as_ref())" % sym) in t, t[:140], "src/vm/interpreter.rs:%s" % a["line"])
+        # Equal / NotEqual: two pops, one Bool pushed, true exactly when the operands are (not) equal through Object's
+        # PartialEq — C09's eq-ne rule, evaluated there on the normalised arm and linked here
+        from . import c09 as _c09eq
     ba = F.fn("vm::interpreter::VM::build_array")
     if R.anchor("VM::build_array", ba):
         t = H.render(H.body_of(ba))
@@ -350,6 +347,7 @@ def run(F, R, tier):
     _E.num_locals_rule(F, R, "compile_function_literal", "a function's frame reserves one slot per parameter and local of its own scope")
     _E.num_locals_rule(F, R, "compile_filter_statement", "a filter's frame reserves one slot per local of its own scope")
     # ---- (v) rejections -----------------------------------------------------------------------------------------------------------------------
+    g = F.fn(C + "compile_statement")
     for ctx in ("main", "filter", "fn"):
         r = res["stmt"].get(("Return", ctx))
         if not R.anchor("Statement::Return [%s]" % ctx, r):
